@@ -47,11 +47,12 @@ fn wrap(mt: &str, b4: &str, variant: &str) -> String {
         "block3-all" => format!("{{1:F01BANKBEBBAXXX0000000000}}{{2:I{mt}BANKDEFFXXXXU3003}}{{3:{{103:EBA}}{{113:URGT}}{{108:MUR123}}{{119:STP}}{{423:240719123045}}{{106:240719BANKBEBBAXXX0000000000}}{{424:RELREF}}{{111:001}}{{121:3c8c5a1e-7a3b-4b5e-9f1a-1d2e3f4a5b6c}}{{115:ADDRESSEE INFO}}{{165:TPS/INFO}}{{433:AOK/SCREENED}}{{434:FPO/CONTROL}}}}{{4:\n{b4}-}}{{5:{{CHK:123456789ABC}}{{TNG}}{{PDE:1348120811BANKFRPPAXXX2222123456}}{{DLM}}{{MRF:1806271539180626BANKFRPPAXXX2222123456}}{{PDM:1213120811BANKFRPPAXXX2222123456}}{{SYS:1454120811BANKFRPPAXXX2222123456}}{{MAC:00000000}}}}"),
         "output-header" => format!("{{1:F01BANKBEBBAXXX0000000000}}{{2:O{mt}1200240101BANKDEFFAXXX00000000002401011201N}}{{4:\n{b4}-}}"),
         "output-header-no-priority" => format!("{{1:F01BANKBEBBAXXX0000000000}}{{2:O{mt}1200240101BANKDEFFAXXX00000000002401011201}}{{4:\n{b4}-}}"),
+        "block5-empty-values" => format!("{{1:F01BANKBEBBAXXX0000000000}}{{2:I{mt}BANKDEFFXXXXN}}{{4:\n{b4}-}}{{5:{{CHK:123456789ABC}}{{PDE:}}{{PDM:1213}}{{SYS:}}}}"),
         "bic11" => format!("{{1:F01BANKBEBB1230000000000}}{{2:I{mt}BANKDEFFX123N2020}}{{4:\n{b4}-}}"),
         _ => unreachable!(),
     }
 }
-pub const WRAPS: [&str; 7] = ["lf", "crlf", "blocks35", "block3-all", "output-header", "output-header-no-priority", "bic11"];
+pub const WRAPS: [&str; 8] = ["lf", "crlf", "blocks35", "block3-all", "block5-empty-values", "output-header", "output-header-no-priority", "bic11"];
 
 pub struct Plan { pub mt: &'static str, pub msg: Msg, pub expand: bool }
 
